@@ -85,8 +85,7 @@ def custom_func(level, which):
 def _real_dtype(dtype):
     dt = np.dtype(dtype)
     if dt.kind == 'c':
-        return np.dtype('float32') if dt == np.dtype('complex64') else \
-            np.dtype('float64')
+        return np.empty(0, dtype=dt).real.dtype
     if dt.kind == 'f':
         return dt
     return np.dtype('float64')
